@@ -63,6 +63,10 @@ CHECKS = {
    technique="bounded-exhaustive enumeration of ACL rule lists (through the real YAML loader) x clients x operations against an independent first-match reference; Prefix::contains for every prefix length against bit arithmetic; plus the live DNS service and live HTTP API under 12 rule lists",
    text="require_permission is decided for every rule list of length <=3 over a 180-rule alphabet (lengths 4-6 over a sub-alphabet) x 25 clients x 4 operations; the entry points are exercised for real: DNS over TCP from 4 source addresses (refused => upstream saw nothing, cached answer not served) and HTTP over v4, v6, v4-mapped and unix-socket clients x 4 paths.",
    note="A plain IPv4 client against an IPv6 prefix that merely covers ::ffff:0:0/96 (e.g. ::/0) is don't-care. Unknown HTTP paths may answer 403 or 404."),
+ "C16": dict(level="model_checking", engine="E-HIST-style + E-NET", design="5/C16",
+   technique="exhaustive enumeration of arrival/advance histories on the real IpRateLimiter under the virtual clock (volume-bound and idle-grant oracles on every history), plus the live service: volume patterns counted at the client and the full cookie matrix",
+   text="Every history up to the stated depth over an alphabet derived from the limiter's own constants is executed on the real limiter; on the live service REFUSED datagrams are counted and sized at the client, and a server cookie is presented under every combination of client cookie, source address, server address, 0/1/2 key rotations and cookie length with the source's bucket emptied first, so only an exemption can produce a reply.",
+   note="Single-threaded: the read-lock/write-lock window between check and deplete under a multi-threaded runtime is not explored. Rotation is lazy; a silent gap over several periods is don't-care."),
 }
 
 NOT_YET = {
